@@ -22,7 +22,7 @@ RULE = ("generated signatures (<= 5 parameters over positional-only / positional
 ASSUMPTIONS = ["payload values already have the annotated types (coercion is not part of the property)", "Pydantic v1 converter not exercised",
                "payload keys never collide with dependency parameter names"]
 EVAL_COUNTER = "bindings_judged"
-REQUIRED = ["bindings_judged", "shape_empty_string", "shape_missing_required", "shape_extra", "converters_compared", "outputs_roundtripped", "e2e_default_converter", "bindings_with_off_type_default_used", "rewritten_bucket_steps", "positional_catch_all_jobs"]
+REQUIRED = ["jobs_whose_parameter_names_are_framework_words", "bindings_judged", "shape_empty_string", "shape_missing_required", "shape_extra", "converters_compared", "outputs_roundtripped", "e2e_default_converter", "bindings_with_off_type_default_used", "rewritten_bucket_steps", "positional_catch_all_jobs"]
 CASE_TIMEOUT = 120
 
 
@@ -349,6 +349,26 @@ async def e2e(loop, case, out, stats, fps):
         rb.actor(name="catch_all")(catch_all)
         rb.actor(name="catch_mixed")(catch_mixed)
         rb.actor(name="catch_rest")(catch_rest)
+        # parameter names an application is free to choose, that happen to be words the framework uses itself
+        named_calls = []
+
+        async def render(template, context, timeout=10.0, *, fn=None, dependencies=(), actor="x", message=None, key=None, payload=None, parameters=None, connection=None, result=None, name=None, queue=None):
+            named_calls.append(("render", dict(template=template, context=context, timeout=timeout, fn=fn, dependencies=dependencies, actor=actor, message=message, key=key, payload=payload, parameters=parameters,
+                                                connection=connection, result=result, name=name, queue=queue)))
+
+        async def render_kw(template, **options):
+            named_calls.append(("render_kw", dict(template=template, **options)))
+
+        WORDS = {"template": "t.html", "context": {"user": "u"}, "timeout": 2.5, "fn": "f", "dependencies": ["d"], "actor": "a", "message": "m", "key": "k", "payload": "p", "parameters": {"x": 1}, "connection": "c",
+                 "result": "r", "name": "n", "queue": "q"}
+        named_jobs = []
+        for ri_, (rt_, lab_) in enumerate(((r, "default"), (rb, "basic"))):
+            rt_.actor(name=f"render_{lab_}")(render)
+            if lab_ == "basic":
+                rt_.actor(name=f"render_kw_{lab_}")(render_kw)  # (catch-alls are a BasicConverter feature)
+            for aname in ((f"render_{lab_}", f"render_kw_{lab_}") if lab_ == "basic" else (f"render_{lab_}",)):
+                named_jobs.append((aname, dict(WORDS)))
+                await Job(aname, id_=f"named-{aname}", args=dict(WORDS), store_result=False, _connection=conn).enqueue()
         # entries without a parameter of their name go to *rest in the order the producer wrote them (dicts and dataclasses
         # alike): not alphabetical here
         import dataclasses as _dc
@@ -375,7 +395,7 @@ async def e2e(loop, case, out, stats, fps):
             chain_calls[cname] = []
             register_bucket_chain_actor(rt, cname, conn, chain_calls[cname], f"{cname}-args")
             await Job(cname, id_=f"{cname}-1", args={"step": 1, "note": "first", "extra": 7}, args_id=f"{cname}-args", use_args_bucketer=True, store_result=False, _connection=conn).enqueue()
-        w = Worker(routers=[r, rb], messages_limit=len(plans) + n_catch + 4 + len(rest_jobs), tasks_limit=1, handle_signals=[], _connection=conn)
+        w = Worker(routers=[r, rb], messages_limit=len(plans) + n_catch + 4 + len(rest_jobs) + len(named_jobs), tasks_limit=1, handle_signals=[], _connection=conn)
         try:
             await asyncio.wait_for(w.run(), 60)
         except asyncio.TimeoutError:
@@ -386,6 +406,12 @@ async def e2e(loop, case, out, stats, fps):
             want = [{"step": 1, "note": "first", "extra": 7}, {"step": 2, "note": "none", "extra": None}]
             if calls_ != want:
                 out.append(V("bound_wrong" if len(calls_) == 2 else "spurious_failure", f"{cname.split('_')[1]}/rewritten-argument-bucket", f"two steps sharing the argument bucket id {cname}-args (rewritten by step 1): called with {calls_}, expected {want}"))
+        stats["bindings_judged"] += len(named_jobs)
+        stats["jobs_whose_parameter_names_are_framework_words"] += len(named_jobs)
+        if len(named_calls) != len(named_jobs) or any(got != WORDS for _n, got in named_calls):
+            bad = [(n_, {k: v for k, v in got.items() if WORDS.get(k) != v}) for n_, got in named_calls if got != WORDS]
+            out.append(V("spurious_failure" if len(named_calls) != len(named_jobs) else "bound_wrong", "named-like-framework-words", f"actors with parameters named {sorted(WORDS)} (explicit, and through **options) and a job "
+                         f"carrying all of them: {len(named_calls)} of {len(named_jobs)} ran ({[n_ for n_, _g in named_calls]}); wrong bindings {bad[:2]}"))
         stats["bindings_judged"] += len(rest_jobs)
         stats["positional_catch_all_jobs"] += len(rest_jobs)
         if rest_calls != [w_ for _a, w_ in rest_jobs]:
